@@ -273,6 +273,19 @@ func c15Drain(r *core.Report, run *core.Func) {
 		}
 		r.Check(ok, rule, fl.Key+"#done-after-each-group", posP(r, fl.Pos()), "every successfully flushed group is followed by WaitGroup.Done before the next one is taken",
 			"a group can be flushed without WaitGroup.Done being called: Run's shutdown waits forever")
+		// Done (and the return of the group's buffer to the pool) only after the callback has run: Run's Wait must cover the callback
+		if flush != nil && done != nil {
+			r.Check(g.Dominates(flush, done), rule, fl.Key+"#done-only-after-callback", pos(r, done.Ast), "WaitGroup.Done is reached only after the group's callback returned",
+				"WaitGroup.Done is signalled before the group's callback has run: Run's deferred Wait no longer covers the callback, so Run can return before the last group was delivered")
+			for _, n := range stmtNodes(g) {
+				for _, c := range nodeCalls(n) {
+					if core.CalleeName(info, c) == "accum.putFlushBuffer" {
+						r.Check(g.Dominates(flush, n), rule, fl.Key+"#buffer-released-only-after-callback", pos(r, c), "the group's buffer goes back to the pool only after the callback returned",
+							"the group's buffer is returned to the pool before the callback ran: the next group can overwrite the children the callback is about to read")
+					}
+				}
+			}
+		}
 	}
 	// (c) Run: deferred shutdown waits before closing
 	info := run.Pkg.TypesInfo
